@@ -385,7 +385,7 @@ func (obj *Array) LoadForm() Object {
 		Symbol(":element-type"),
 		et,
 		Symbol(":initial-contents"),
-		List{quoteSymbol, obj.AsList()},
+		elementLoadForm(obj.AsList()), // the elements by their load forms, they need not be constants
 	}
 	if obj.adjustable {
 		form = append(form, Symbol(":adjustable"), True)
